@@ -22,4 +22,9 @@ Dst0 == [i \in 1..Len(row) |-> 100 + i]
 Inv_RowEqualsSum == Len(row) > 0 =>
     I_CorrRow(row, ker, c, opt, PadRow, Dst0) = P_CorrRows(<<row>>, ker, c, opt, PadRec, <<Dst0>>)[1]
 Inv_ReverseTwice == LET r == I_ReverseKernel(ker, c) IN I_ReverseKernel(r[1], r[2]) = <<ker, c>>
+\* box_filter's two passes equal the 2-D window sum (three-row image grown from the row; the kernel's length and centre are used)
+Img3 == <<row, [i \in 1..Len(row) |-> (row[i] + i) % 3], [i \in 1..Len(row) |-> row[Len(row) + 1 - i]]>>
+Dst3 == <<Dst0, Dst0, Dst0>>
+Inv_BoxIsWindowSum == (Len(row) > 0 /\ opt \in {"extend_zero", "extend_constant", "output_zero"}) =>
+    P_BoxFilter(Img3, Len(ker), c, opt, [big |-> <<>>, ox |-> 0, oy |-> 0], Dst3) = P_BoxWindowSum(Img3, Len(ker), c, opt)
 =============================================================================
